@@ -196,7 +196,11 @@ func (t *Tokenizer) run(tokens chan<- Token) {
 	lastWasBlank := false
 	for {
 		thisTokenType := tInvalid
-		switch n := t.next(true); n {
+		n := t.next(true)
+		// the line the token starts on; reading the token may read ahead over
+		// a following comment that contains line breaks
+		line := t.getLine()
+		switch n {
 		case '\n':
 			t.line++
 			lastWasBlank = true
@@ -209,30 +213,30 @@ func (t *Tokenizer) run(tokens chan<- Token) {
 			return
 		case '(':
 			if lastTokenType == tNumber || lastTokenType == tClose || (lastTokenType == tIdent && lastWasBlank) {
-				tokens <- Token{tOperate, "*", t.getLine()}
+				tokens <- Token{tOperate, "*", line}
 			}
-			tokens <- Token{tOpen, "(", t.getLine()}
+			tokens <- Token{tOpen, "(", line}
 		case ')':
-			tokens <- Token{tClose, ")", t.getLine()}
+			tokens <- Token{tClose, ")", line}
 			if t.comfortEnabled {
 				thisTokenType = tClose
 			}
 		case '[':
-			tokens <- Token{tOpenBracket, "[", t.getLine()}
+			tokens <- Token{tOpenBracket, "[", line}
 		case ']':
-			tokens <- Token{tCloseBracket, "]", t.getLine()}
+			tokens <- Token{tCloseBracket, "]", line}
 		case '{':
-			tokens <- Token{tOpenCurly, "{", t.getLine()}
+			tokens <- Token{tOpenCurly, "{", line}
 		case '}':
-			tokens <- Token{tCloseCurly, "}", t.getLine()}
+			tokens <- Token{tCloseCurly, "}", line}
 		case '.':
-			tokens <- Token{tDot, ".", t.getLine()}
+			tokens <- Token{tDot, ".", line}
 		case ':':
-			tokens <- Token{tColon, ":", t.getLine()}
+			tokens <- Token{tColon, ":", line}
 		case ',':
-			tokens <- Token{tComma, ",", t.getLine()}
+			tokens <- Token{tComma, ",", line}
 		case ';':
-			tokens <- Token{tSemicolon, ";", t.getLine()}
+			tokens <- Token{tSemicolon, ";", line}
 		case '"':
 			t.inLiteral = true
 			str := t.readStr()
@@ -243,61 +247,61 @@ func (t *Tokenizer) run(tokens chan<- Token) {
 			image := t.readSkip(func(c rune) bool { return c != '\'' }, false)
 			t.next(false)
 			t.inLiteral = false
-			tokens <- Token{tIdent, image, t.getLine()}
+			tokens <- Token{tIdent, image, line}
 		case '⁰':
-			tokens <- Token{tOperate, "^", t.getLine()}
-			tokens <- Token{tNumber, "0", t.getLine()}
+			tokens <- Token{tOperate, "^", line}
+			tokens <- Token{tNumber, "0", line}
 		case '¹':
-			tokens <- Token{tOperate, "^", t.getLine()}
-			tokens <- Token{tNumber, "1", t.getLine()}
+			tokens <- Token{tOperate, "^", line}
+			tokens <- Token{tNumber, "1", line}
 		case '²':
-			tokens <- Token{tOperate, "^", t.getLine()}
-			tokens <- Token{tNumber, "2", t.getLine()}
+			tokens <- Token{tOperate, "^", line}
+			tokens <- Token{tNumber, "2", line}
 		case '³':
-			tokens <- Token{tOperate, "^", t.getLine()}
-			tokens <- Token{tNumber, "3", t.getLine()}
+			tokens <- Token{tOperate, "^", line}
+			tokens <- Token{tNumber, "3", line}
 		case '⁴':
-			tokens <- Token{tOperate, "^", t.getLine()}
-			tokens <- Token{tNumber, "4", t.getLine()}
+			tokens <- Token{tOperate, "^", line}
+			tokens <- Token{tNumber, "4", line}
 		case '⁵':
-			tokens <- Token{tOperate, "^", t.getLine()}
-			tokens <- Token{tNumber, "5", t.getLine()}
+			tokens <- Token{tOperate, "^", line}
+			tokens <- Token{tNumber, "5", line}
 		case '⁶':
-			tokens <- Token{tOperate, "^", t.getLine()}
-			tokens <- Token{tNumber, "6", t.getLine()}
+			tokens <- Token{tOperate, "^", line}
+			tokens <- Token{tNumber, "6", line}
 		case '⁷':
-			tokens <- Token{tOperate, "^", t.getLine()}
-			tokens <- Token{tNumber, "7", t.getLine()}
+			tokens <- Token{tOperate, "^", line}
+			tokens <- Token{tNumber, "7", line}
 		case '⁸':
-			tokens <- Token{tOperate, "^", t.getLine()}
-			tokens <- Token{tNumber, "8", t.getLine()}
+			tokens <- Token{tOperate, "^", line}
+			tokens <- Token{tNumber, "8", line}
 		case '⁹':
-			tokens <- Token{tOperate, "^", t.getLine()}
-			tokens <- Token{tNumber, "9", t.getLine()}
+			tokens <- Token{tOperate, "^", line}
+			tokens <- Token{tNumber, "9", line}
 		default:
 			t.unread()
 			c := t.peek(true)
 			if f, ok := t.number(c); ok {
 				if lastTokenType == tNumber || lastTokenType == tIdent || lastTokenType == tClose {
-					tokens <- Token{tOperate, "*", t.getLine()}
+					tokens <- Token{tOperate, "*", line}
 				}
 				image := t.read(f)
-				tokens <- Token{tNumber, image, t.getLine()}
+				tokens <- Token{tNumber, image, line}
 				if t.comfortEnabled {
 					thisTokenType = tNumber
 				}
 			} else if f, ok := t.identifier(c); ok {
 				image := t.read(f)
 				if to, ok := t.textOperators[image]; ok {
-					tokens <- Token{tOperate, to, t.getLine()}
+					tokens <- Token{tOperate, to, line}
 				} else {
 					if t.keyWord[image] {
-						tokens <- Token{tKeyWord, image, t.getLine()}
+						tokens <- Token{tKeyWord, image, line}
 					} else {
 						if lastTokenType == tNumber || lastTokenType == tIdent || lastTokenType == tClose {
-							tokens <- Token{tOperate, "*", t.getLine()}
+							tokens <- Token{tOperate, "*", line}
 						}
-						tokens <- Token{tIdent, image, t.getLine()}
+						tokens <- Token{tIdent, image, line}
 						if t.comfortEnabled {
 							thisTokenType = tIdent
 						}
@@ -306,9 +310,9 @@ func (t *Tokenizer) run(tokens chan<- Token) {
 				}
 			} else {
 				if op, ok := t.parseOperator(); ok {
-					tokens <- Token{tOperate, op, t.getLine()}
+					tokens <- Token{tOperate, op, line}
 				} else {
-					tokens <- Token{tInvalid, op, t.getLine()}
+					tokens <- Token{tInvalid, op, line}
 				}
 			}
 		}
